@@ -173,6 +173,7 @@ type apiResult struct {
 	decodes  map[int][]string // op index -> decode output lines
 	dumps    map[int]string   // op index -> dump hash of the committed state (API)
 	stats    map[int][2]int   // op index -> FreePageN, PendingPageN
+	bstats   map[int][4]int   // op index -> Bucket.Stats of the root bucket: BranchPageN, BranchOverflowN, LeafPageN, LeafOverflowN
 	flstate  map[int]string
 	fileSize map[int]int64
 	shapes   map[int]string
@@ -183,7 +184,7 @@ func runAPI(dir string, tag string, o optSet, ops []Op, withDecode bool) *apiRes
 	path := filepath.Join(dir, tag+".db")
 	_ = os.Remove(path)
 	e := NewExec(path, o.boltOptions())
-	res := &apiResult{ops: ops, decodes: map[int][]string{}, dumps: map[int]string{}, stats: map[int][2]int{}, flstate: map[int]string{}, fileSize: map[int]int64{}}
+	res := &apiResult{ops: ops, decodes: map[int][]string{}, dumps: map[int]string{}, stats: map[int][2]int{}, bstats: map[int][4]int{}, flstate: map[int]string{}, fileSize: map[int]int64{}}
 	if err := e.Open(); err != nil {
 		res.impl = append(res.impl, "open-failed:"+err.Error())
 		return res
@@ -203,6 +204,11 @@ func runAPI(dir string, tag string, o optSet, ops []Op, withDecode bool) *apiRes
 			res.dumps[i] = hashStr(dumpDB(e.DB))
 			st := e.DB.Stats()
 			res.stats[i] = [2]int{st.FreePageN, st.PendingPageN}
+			_ = e.DB.View(func(tx *bolt.Tx) error {
+				bs := tx.Cursor().Bucket().Stats() // the root bucket: totals over every bucket
+				res.bstats[i] = [4]int{bs.BranchPageN, bs.BranchOverflowN, bs.LeafPageN, bs.LeafOverflowN}
+				return nil
+			})
 			if fi, err := os.Stat(path); err == nil {
 				res.fileSize[i] = fi.Size()
 			}
@@ -385,6 +391,24 @@ func checkAPIResult(rep *Report, o optSet, res *apiResult) {
 				sig += ":" + h
 			}
 			rep.violation("C07", "monitor", sig, fmt.Sprintf("after op %d (%s): %s [%s]", i, ops[i].K, truncate(dec[5], 300), o), replay(i))
+		}
+		// Bucket.Stats (summed over all buckets) reports the same tree pages as the independent reader
+		if bs, ok := res.bstats[i]; ok && strings.HasPrefix(dec[2], "pages ") && dec[2] != "pages -" {
+			var got [4]int
+			for _, pg := range strings.Split(strings.TrimPrefix(dec[2], "pages "), ",") {
+				var id, ovf, fl int
+				fmt.Sscanf(pg, "%d+%d:%d", &id, &ovf, &fl)
+				if fl == 1 {
+					got[0]++
+					got[1] += ovf
+				} else if fl == 2 {
+					got[2]++
+					got[3] += ovf
+				}
+			}
+			if got != bs {
+				rep.violation("C07", "monitor", "bucket-stats-differ", fmt.Sprintf("after op %d: Bucket.Stats of the root bucket reports branch pages/overflow, leaf pages/overflow = %v, the independent reader finds %v in the file", i, bs, got), replay(i))
+			}
 		}
 		// file at least as long as the high-water mark
 		var ps, txid, root, pgid int64
